@@ -32,6 +32,12 @@ package auth
 //@   ensures [signature] err == nil && !simulate && stdTx.Signature.PublicKey != nil && len(pk_raw(stdTx.Signature.PublicKey)) != 0
 //@        ==> pk_verify(stdTx.Signature.PublicKey, sign_bytes(ctx_chainid(ctx), stdTx.Entropy, stdTx.Fee, stdTx.Msg, stdTx.Memo), stdTx.Signature.Signature)
 //@   ensures [statekey] err == nil && !(stdTx.Signature.PublicKey != nil && len(pk_raw(stdTx.Signature.PublicKey)) != 0) ==> auth.has[msg_signer(stdTx.Msg)]
+// a key taken from the world state is held to the same two conditions: the account object decoded by THIS call (the one
+// with serial number old(acct.next)) is the signer's, its key hashes to the signer's address and verifies the signature
+// - a stored key is not trusted to belong to the address it is stored under (seed C03e)
+//@   ensures [statekey-signer] err == nil && !(stdTx.Signature.PublicKey != nil && len(pk_raw(stdTx.Signature.PublicKey)) != 0)
+//@        ==> (exists a Iface :: acct.id[a] == old(acct.next) && acct.addr[a] == msg_signer(stdTx.Msg) && acct.pk[a] != nil && pk_addr(acct.pk[a]) == msg_signer(stdTx.Msg)
+//@             && (!simulate ==> pk_verify(acct.pk[a], sign_bytes(ctx_chainid(ctx), stdTx.Entropy, stdTx.Fee, stdTx.Msg, stdTx.Memo), stdTx.Signature.Signature)))
 //@   ensures [fee] err == nil ==> amt(stdTx.Fee, "upokt") >= msg_fee(stdTx.Msg)
 //@
 // DeductFees: the fee moves from the signer's own balance to the fee collector, or nothing changes
